@@ -22,7 +22,7 @@ def op_class(op):
 
 def qualifier(inv, case, ev):
     op = ev.get('op', '')
-    if inv == 'Reach' and op.startswith('init:'):
+    if inv == 'Reach' and op.startswith('init:') and not any(f in case.get('features', []) for f in ('reloads', 'resources', 'recharge', 'breaks')):
         # built by insertions alone: every leg was evaluated (no removal closed a gap over an unreachable pair)
         return 'construction'
     if inv == 'Reach':
